@@ -276,8 +276,29 @@ impl Corpus {
     }
 }
 
+/// A document far down a long file and far along a long line (many-digit source positions).
+pub fn far_doc(r: &mut Rng) -> String {
+    let lines = *r.pick(&[99usize, 120, 1000, 1500]);
+    let mut s = String::new();
+    for i in 0..lines {
+        s.push_str(if i % 7 == 6 { "\n" } else { "filler\n" });
+    }
+    s.push('\n');
+    let pad = *r.pick(&[98usize, 120, 1100]);
+    s.push_str(&"word ".repeat(pad / 5));
+    s.push_str(&inline(r, 2));
+    s.push(' ');
+    s.push_str(&inline(r, 2));
+    s.push_str("\n\n");
+    s.push_str(&block(r, 2));
+    s
+}
+
 /// The mixed stream most properties use.
 pub fn mixed_doc(r: &mut Rng, corpus: &Corpus) -> (String, &'static str) {
+    if r.chance(1, 40) {
+        return (far_doc(r), "far");
+    }
     match r.below(10) {
         0..=3 => (grammar_doc(r), "grammar"),
         4..=6 => (palette_doc(r), "palette"),
